@@ -16,14 +16,37 @@ from props import shim_common as sc
 SPELLS = ("alias", "subvar", "int", "str", "posint", "posstr")
 
 
-def make_items(n, idpat, prefix, n_ins=0):
+def make_items(n, idpat, prefix, n_ins=0, alias_style="plain", all_derived=False, sv_style="pad"):
+    """items of an array variable.  alias_style "numeric": the alias of item i is the decimal element id of item
+    i+1 (a colliding but legal payload: exercises the alias-first rule on re-shimming); all_derived: the real
+    sub-variables are flagged derived too (a derived MR variable), independently of having an anchor."""
     ids = {"pos": list(range(n)), "one": list(range(1, n + 1)), "rev": list(range(n, 0, -1)),
            "sparse": [11, 23, 35, 47][:n], "neg": [-1, 0, 7, 2][:n]}[idpat]
     items = []
     for i in range(n):
-        items.append({"id": ids[i], "alias": "%s_%c" % (prefix, chr(97 + i)), "subvar_id": "%04d" % (ids[i] + 20),
-                      "name": "%s item %d" % (prefix, i), "anchor": i < n_ins, "derived": i < n_ins})
+        alias = "%s_%c" % (prefix, chr(97 + i))
+        if alias_style == "numeric" and n >= 2:
+            alias = str(ids[(i + 1) % n])
+        svid = "%04d" % (ids[i] + 20) if sv_style == "pad" else str(i + 1)   # "dec": as in real MR-insertion payloads
+        items.append({"id": ids[i], "alias": alias, "subvar_id": svid,
+                      "name": "%s item %d" % (prefix, i), "anchor": i < n_ins, "derived": all_derived or i < n_ins})
     return items
+
+
+def add_mr_insertions(resp, var_alias, items):
+    """mark the anchored items of MR variable `var_alias` as inserted (view insertions on BOTH of its dimension
+    dicts, `anchor` in the element references) and copy the `derived` flags"""
+    for dim in resp["result"]["dimensions"]:
+        if dim["references"].get("alias") != var_alias:
+            continue
+        dim["references"]["view"] = {"transform": {"insertions": [
+            {"anchor": "top", "function": "any_non_missing_selected", "name": it["name"], "id": i + 1,
+             "kwargs": {"variable": var_alias, "subvariable_ids": []}} for i, it in enumerate(items) if it["anchor"]]}}
+        if dim["type"]["class"] == "enum":
+            for el, it in zip(dim["type"]["elements"], items):
+                el["value"]["derived"] = bool(it["derived"])
+                if it["anchor"]:
+                    el["value"]["references"]["anchor"] = "top"
 
 
 def lean_dim(items, mr_ins):
@@ -95,19 +118,8 @@ def build(case):
     resp = gen.cube_response(vars_, survey, True)
     # MR insertions: mark derived items + view insertions on BOTH dimension dicts of the MR variable
     for side, (items, mr_ins) in arrays.items():
-        if not mr_ins:
-            continue
-        for dim in resp["result"]["dimensions"]:
-            if dim["references"].get("alias") != "m":
-                continue
-            dim["references"]["view"] = {"transform": {"insertions": [
-                {"anchor": "top", "function": "any_non_missing_selected", "name": it["name"], "id": i + 1,
-                 "kwargs": {"variable": "m", "subvariable_ids": []}} for i, it in enumerate(items) if it["anchor"]]}}
-            if dim["type"]["class"] == "enum":
-                for el, it in zip(dim["type"]["elements"], items):
-                    if it["anchor"]:
-                        el["value"]["derived"] = True
-                        el["value"]["references"]["anchor"] = "top"
+        if mr_ins:
+            add_mr_insertions(resp, "m", items)
     return {"resp": resp, "arrays": arrays}
 
 
